@@ -91,7 +91,7 @@ func allStrings(alpha string, maxLen int) []string {
 }
 
 func buildTree(r *gen.Rng, base string, depth int, node *refNode) {
-	names := []string{"a", "b", "ab", "ba", "a.b", "aa", "b.txt", "a.txt", "ab.txt.txt", ".a", "abxb"}
+	names := []string{"a", "b", "ab", "ba", "a.b", "aa", "b.txt", "a.txt", "ab.txt.txt", ".a", "abxb", "a?b", "[a]", "a+b", "a b", "b.TXT", "{a,b}", "a\\b"}
 	used := map[string]bool{}
 	n := 2 + r.Intn(5)
 	for i := 0; i < n; i++ {
@@ -114,7 +114,7 @@ func buildTree(r *gen.Rng, base string, depth int, node *refNode) {
 }
 
 func randSeg(r *gen.Rng) string {
-	pieces := []string{"a", "b", "ab", ".", "txt", "x", "*", "*", "*"}
+	pieces := []string{"a", "b", "ab", ".", "txt", "x", "*", "*", "*", "?", "[a]", "+", " ", "{a,b}", "TXT"}
 	n := 1 + r.Intn(4)
 	s := ""
 	for i := 0; i < n; i++ {
@@ -131,7 +131,7 @@ func C20(r *drv.Run) {
 		ntrees, npat = 400, 150
 		plen = 5
 	}
-	r.Rule = fmt.Sprintf("exhaustive: every pattern of length <= %d over {a,b,.,*} with at most 3 stars x a directory holding every name of length <= 4 over {a,b,.} (118 files) and 3 sub-directories with matching names; generated trees of depth <= 3 (names such as a.txt.txt, abxb, .a) with relative and absolute multi-segment patterns. Oracle: reference glob (segment-wise, backtracking '*') over the harness's own record of the tree; result sets compared after filepath.Clean; duplicates and listed directories are violations. Non-trivial = pattern containing '*' that selects a non-empty proper subset; distinct by (tree, pattern).", plen)
+	r.Rule = fmt.Sprintf("exhaustive: every pattern of length <= %d over {a,b,.,*} with at most 3 stars x a directory holding every name of length <= 4 over {a,b,.} (118 files) and 3 sub-directories with matching names; generated trees of depth <= 3 (names such as a.txt.txt, abxb, .a, and names containing ? [ ] + { } blank backslash, which only '*' may treat specially) with relative and absolute multi-segment patterns. Oracle: reference glob (segment-wise, backtracking '*') over the harness's own record of the tree; result sets compared after filepath.Clean; duplicates and listed directories are violations. Non-trivial = pattern containing '*' that selects a non-empty proper subset; distinct by (tree, pattern).", plen)
 	r.Assumptions = []string{
 		"excluded as the property says: directory segments made only of stars, '.' and '..' segments, empty segments",
 		"no symbolic links or special files in the trees",
